@@ -25,6 +25,21 @@
 (* next step.  An established relay is closed by its watcher as soon as    *)
 (* the removal latch of the chosen OBJECT is closed.                        *)
 (*                                                                         *)
+(* Connection counts and dial failures.  cnt[o] is Stats.connActive of the *)
+(* host object as the processor maintains it (IncConnCount after a         *)
+(* successful dial, proc.go:116; DecConnCount when HandleConn returns,     *)
+(* proc.go:120); it is the input of least-connection.  A backend may       *)
+(* REFUSE connections (ref[a]) while its host is still in the usable list  *)
+(* - the window between a backend going down and the monitor noticing; to  *)
+(* keep this independent of the monitor's view the refusing state is only  *)
+(* used in configurations without health check (NoMonitor) -: the dial of  *)
+(* a Conn step to such a host fails, the client sees its connection closed *)
+(* and the count of the host is unchanged.  FailedDialLeaks = TRUE is the  *)
+(* regression "count taken before the dial and not given back when the    *)
+(* dial fails", which must violate CountsAreRealConnections and            *)
+(* LCNotBusierReal (anti-vacuity).  With the random source scripted        *)
+(* (r1, r2) every policy is deterministic.                                 *)
+(*                                                                         *)
 (* Half-close.  An established relay is in one of three states when its    *)
 (* host is removed: "open"; "chc" - the client has shut down its write     *)
 (* side (the client->backend copy of HandleConn has ended, the backend is  *)
@@ -42,6 +57,10 @@ EXTENDS HostSet
 CONSTANTS Policy,      \* "rr" | "random" | "lc"
           Rise, Fall,  \* thresholds of the health check
           MaxRounds, MaxConns, MaxToggles,
+          NoMonitor,      \* TRUE: the service has no health check (no rounds, no probes)
+          MaxRefuse,      \* backend refuse / accept-again switches per behaviour (NoMonitor only)
+          MaxClose,       \* client closes per behaviour
+          FailedDialLeaks, \* TRUE: a failed dial leaves +1 on the host's connection count
           MaxHalf,        \* half-closes per behaviour
           WatcherLeaves   \* subset of {"chc", "bhc"}: states in which the watcher is gone
 
@@ -51,9 +70,12 @@ VARIABLES up,       \* address -> the backend answers probes
           idx,      \* round-robin index
           econns,   \* established relays: [id, o, st] with st in {"open", "chc", "bhc"}
           nconn, nround, ntog, nhalf,
+          ref,      \* address -> the backend refuses connections
+          cnt,      \* object -> Stats.connActive as the processor sees it
+          nref, nclose,
           elast     \* ghost: what the latest step did, for the invariants and the emitter
 
-evars == <<up, snap, succ, fail, idx, econns, nconn, nround, ntog, nhalf, elast>>
+evars == <<up, snap, succ, fail, idx, econns, nconn, nround, ntog, nhalf, ref, cnt, nref, nclose, elast>>
 eall == <<vars, evars>>
 
 NoE == [kind |-> "none"]
@@ -63,6 +85,7 @@ EInit ==
   /\ up = [a \in Addrs |-> TRUE] /\ snap = {}
   /\ succ = [o \in Objs |-> 0] /\ fail = [o \in Objs |-> 0]
   /\ idx = 0 /\ econns = {} /\ nconn = 0 /\ nround = 0 /\ ntog = 0 /\ nhalf = 0
+  /\ ref = [a \in Addrs |-> FALSE] /\ cnt = [o \in Objs |-> 0] /\ nref = 0 /\ nclose = 0
   /\ elast = NoE
 
 \* relays whose object's latch is closed are closed by their watcher (proc.go:126-137)
@@ -73,11 +96,18 @@ Watch(conns) == {c \in conns : ~removed'[c.o] \/ c.st \in WatcherLeaves}
 Leaving == {a \in Addrs : all[a] # NoObj /\ all'[a] = NoObj}
 MustClose == {c \in econns : oaddr[c.o] \in Leaving}
 
+\* the relays through object o that really exist
+Real(o) == Cardinality({c \in econns : c.o = o})
+\* DecConnCount of the relays that ended in this step
+Released == cnt' = [o \in Objs |-> cnt[o] - Cardinality({c \in econns \ econns' : c.o = o})]
+
 HostOpTail ==
-  /\ snap' = IF snap = {} THEN {all'[a] : a \in {x \in Addrs : all'[x] # NoObj}} ELSE snap
+  /\ snap' = IF NoMonitor THEN {}
+             ELSE IF snap = {} THEN {all'[a] : a \in {x \in Addrs : all'[x] # NoObj}} ELSE snap
   /\ econns' = Watch(econns)
+  /\ Released
   /\ elast' = [kind |-> "op", must |-> MustClose, closed |-> econns \ econns']
-  /\ UNCHANGED <<up, succ, fail, idx, nconn, nround, ntog, nhalf>>
+  /\ UNCHANGED <<up, succ, fail, idx, nconn, nround, ntog, nhalf, ref, nref, nclose>>
 
 EAdd(a, t) == AddFresh(a, t) /\ HostOpTail         \* p.OnSvcHostAdd([fresh host])
 ERemove(a, t) == RemoveFresh(a, t) /\ HostOpTail   \* p.OnSvcHostRemove([fresh host])
@@ -92,7 +122,7 @@ Toggle(a) ==
   /\ up' = [up EXCEPT ![a] = ~@]
   /\ ntog' = ntog + 1
   /\ elast' = NoE
-  /\ UNCHANGED <<vars, snap, succ, fail, idx, econns, nconn, nround, nhalf>>
+  /\ UNCHANGED <<vars, snap, succ, fail, idx, econns, nconn, nround, nhalf, ref, cnt, nref, nclose>>
 
 \* one object of a round: checkHostAndUpdateStatus (monitor.go:141-155) with both halves of
 \* a resulting MarkHost* call.  R = [S (maps), fl, su, fa]
@@ -127,23 +157,54 @@ Round ==
   /\ snap' = {all[a] : a \in {x \in Addrs : all[x] # NoObj}}
   /\ nround' = nround + 1
   /\ econns' = Watch(econns)
+  /\ Released
   /\ elast' = [kind |-> "round", must |-> {}, closed |-> econns \ econns']
-  /\ UNCHANGED <<nobj, oaddr, otype, inflight, nops, carried, owed, up, idx, nconn, ntog, nhalf>>
+  /\ UNCHANGED <<nobj, oaddr, otype, inflight, nops, carried, owed, up, idx, nconn, ntog, nhalf, ref, nref, nclose>>
 
-\* one client connection.  `allowed` is the property's answer in the state of the load
+\* one client connection.  `allowed` is the property's answer in the state of the load; r1, r2
+\* are the values of the (scripted) random source: random uses r1, least-connection r1 and r2
+NoConn == [kind |-> "conn", chosen |-> NoObj, est |-> FALSE, refused |-> FALSE, r1 |-> 0, r2 |-> 0,
+           h1 |-> NoObj, h2 |-> NoObj, rc1 |-> 0, rc2 |-> 0]
+
 Conn ==
   /\ nconn < MaxConns
   /\ nconn' = nconn + 1
   /\ IF cache = <<>>
-     THEN /\ elast' = [kind |-> "conn", id |-> nconn + 1, chosen |-> NoObj, allowed |-> Usable, est |-> FALSE]
-          /\ UNCHANGED <<idx, econns>>
-     ELSE \E r \in 0..(Len(cache) - 1) :
-            /\ Policy = "rr" => r = (idx + 1) % Len(cache)
+     THEN /\ elast' = [NoConn EXCEPT !.kind = "conn"] @@ [id |-> nconn + 1, allowed |-> Usable]
+          /\ UNCHANGED <<idx, econns, cnt>>
+     ELSE \E r1 \in 0..(Len(cache) - 1), r2 \in 0..(Len(cache) - 1) :
+            /\ Policy = "rr" => r1 = (idx + 1) % Len(cache) /\ r2 = 0
+            /\ Policy = "random" => r2 = 0
             /\ idx' = IF Policy = "rr" THEN idx + 1 ELSE idx
-            /\ LET o == cache[r + 1] IN
-                 /\ econns' = IF removed[o] THEN econns ELSE econns \cup {[id |-> nconn + 1, o |-> o, st |-> "open"]}
-                 /\ elast' = [kind |-> "conn", id |-> nconn + 1, chosen |-> o, allowed |-> Usable, est |-> ~removed[o]]
-  /\ UNCHANGED <<vars, up, snap, succ, fail, nround, ntog, nhalf>>
+            /\ LET h1 == cache[r1 + 1]
+                   h2 == cache[r2 + 1]
+                   o  == IF Policy = "lc" THEN (IF cnt[h1] < cnt[h2] THEN h1 ELSE h2) ELSE h1   \* lb.go:103-113
+                   refused == ref[oaddr[o]]                  \* the dial fails (proc.go:107-112)
+                   est == ~refused /\ ~removed[o]            \* a closed latch ends the relay at once
+               IN /\ econns' = IF est THEN econns \cup {[id |-> nconn + 1, o |-> o, st |-> "open"]} ELSE econns
+                  /\ cnt' = IF est \/ (refused /\ FailedDialLeaks) THEN [cnt EXCEPT ![o] = @ + 1] ELSE cnt
+                  /\ elast' = [kind |-> "conn", id |-> nconn + 1, chosen |-> o, allowed |-> Usable, est |-> est,
+                               refused |-> refused, r1 |-> r1, r2 |-> r2, h1 |-> h1, h2 |-> h2,
+                               rc1 |-> Real(h1), rc2 |-> Real(h2)]
+  /\ UNCHANGED <<vars, up, snap, succ, fail, nround, ntog, nhalf, ref, nref, nclose>>
+
+\* the backend of address a starts / stops refusing connections (its listener is closed /
+\* reopened); established relays stay
+SwitchRefuse(a) ==
+  /\ nref < MaxRefuse          \* configurations with a monitor have MaxRefuse = 0
+  /\ ref' = [ref EXCEPT ![a] = ~@]
+  /\ nref' = nref + 1
+  /\ elast' = NoE
+  /\ UNCHANGED <<vars, up, snap, succ, fail, idx, econns, nconn, nround, ntog, nhalf, cnt, nclose>>
+
+\* the client closes its connection: the relay ends, HandleConn returns, DecConnCount
+CloseConn(c) ==
+  /\ c \in econns /\ nclose < MaxClose
+  /\ econns' = econns \ {c}
+  /\ Released
+  /\ nclose' = nclose + 1
+  /\ elast' = NoE
+  /\ UNCHANGED <<vars, up, snap, succ, fail, idx, nconn, nround, ntog, nhalf, ref, nref>>
 
 \* one side of an established relay shuts down its write side: side = "chc" the client
 \* (CloseWrite on the client socket; the processor's client->backend copy sees EOF, half-closes
@@ -153,11 +214,13 @@ HalfClose(c, side) ==
   /\ econns' = (econns \ {c}) \cup {[c EXCEPT !.st = side]}
   /\ nhalf' = nhalf + 1
   /\ elast' = NoE
-  /\ UNCHANGED <<vars, up, snap, succ, fail, idx, nconn, nround, ntog>>
+  /\ UNCHANGED <<vars, up, snap, succ, fail, idx, nconn, nround, ntog, ref, cnt, nref, nclose>>
 
 ENext ==
   \/ HostOp \/ (\E a \in Addrs : Toggle(a)) \/ Round \/ Conn
   \/ \E c \in econns, side \in {"chc", "bhc"} : HalfClose(c, side)
+  \/ \E a \in Addrs : SwitchRefuse(a)
+  \/ \E c \in econns : CloseConn(c)
 
 ESpec == EInit /\ [][ENext]_eall
 
@@ -168,8 +231,17 @@ ESpec == EInit /\ [][ENext]_eall
 \* main host is healthy; with no usable host it is closed (and only then)
 ConnToUsable ==
   elast.kind = "conn" =>
-    /\ elast.chosen # NoObj => elast.chosen \in elast.allowed /\ elast.est
+    /\ elast.chosen # NoObj => elast.chosen \in elast.allowed /\ (elast.est \/ elast.refused)
     /\ elast.chosen = NoObj => elast.allowed = {}
+
+\* the connection count the policies see is the number of relays that really exist
+CountsAreRealConnections == \A o \in Objs : cnt[o] = Real(o)
+
+\* least-connection never prefers the strictly busier of its two samples - busier in REAL relays
+LCNotBusierReal ==
+  elast.kind = "conn" /\ Policy = "lc" /\ elast.chosen # NoObj /\ elast.h1 # elast.h2 =>
+    /\ elast.chosen = elast.h1 => elast.rc1 <= elast.rc2
+    /\ elast.chosen = elast.h2 => elast.rc2 <= elast.rc1
 
 \* established connections to a host are closed when that host is removed - whatever the
 \* half-close state of the connection
